@@ -16,4 +16,6 @@ Definition ar_magic : list (N * N) := [(58, 96); (59, 10)].
 Definition ar_header_len : list N := [60].
 Definition when_layout : string := "Mon, 2 Jan 2006 15:04:05 -0700"%string.
 Definition deb_versions : list (list N) := [[50; 46; 48; 10]].
+Definition copy_open_flags : list string := ["O_WRONLY"%string; "O_CREATE"%string; "O_EXCL"%string].
+Definition copy_removes_first : bool := true.
 
